@@ -1,4 +1,5 @@
 import WfModel.Runner
+import WfModel.RunnerGone
 import WfProofs.EngineReduce
 import WfProofs.ReplayRebuild
 import WfProofs.RunnerWorkers
@@ -691,4 +692,30 @@ theorem C11_source_shape :
     GenTickLog.stateIsRebuildOfInitAndLog = true ∧ GenTickLog.tickLogIsAdapterReplay = true ∧
     GenTickLog.runningStepsShape = "[step for step in state.workers.keys() if state.workers[step].in_progress]" ∧
     GenTickLog.toDictSerialisesState = true := by
+  decide
+
+
+/-- **C11**, a worker task that ends cancelled while the run goes on (no step result, `except
+asyncio.CancelledError: pass`): it leaves the runner's task set and nothing else moves -- neither the
+live state nor the tick log -- so the replay invariant is kept across it, and the in-progress entry of
+that worker is still in the (live = rebuilt) state. -/
+theorem C11_worker_gone_moves_nothing (cfg : Cfg) (pol : Policy) (base : State) (r : Runner) (s w : Nat)
+    (h : C11.Inv cfg pol base r) :
+    C11.Inv cfg pol base (r.workerGone s w) ∧ (r.workerGone s w).st = r.st ∧ (r.workerGone s w).log = r.log ∧
+    (r.workerGone s w).buf = r.buf ∧ ∀ x ∈ (r.workerGone s w).running, x ∈ r.running ∧ ¬ (x.step = s ∧ x.wid = w) := by
+  refine ⟨h, rfl, rfl, rfl, ?_⟩
+  intro x hx
+  simp only [Runner.workerGone, List.mem_filter, Bool.not_eq_true', Bool.and_eq_false_iff, beq_eq_false_iff_ne] at hx
+  refine ⟨hx.1, ?_⟩
+  rintro ⟨h1, h2⟩
+  cases hx.2 with
+  | inl a => exact a h1
+  | inr b => exact b h2
+
+/-- non-vacuity: after the start event's worker was started (one drain) it is in the task set and in progress in the state;
+when it goes away the task set is empty, the state still holds it in progress, the log still has its one tick -/
+example :
+    let r := C11.runFrom C11.exCfg C11.pol0 initState 0 (some C11.startEv) none [.drain]
+    (r.running.map (fun x => (x.step, x.wid)), ((r.workerGone 0 0).running.length),
+      ((r.workerGone 0 0).st.workers 0).inProg.map (fun i => i.wid), (r.workerGone 0 0).log.length) = ([(0, 0)], 0, [0], 1) := by
   decide
